@@ -85,6 +85,19 @@ def body(chk):
             for f, cut in (("img2", 720 + 2 * reclen), ("img1", 720 + reclen + 5), ("led", 4000), ("vol", 400)):
                 cases.append(dict(level=level, images=images, rpc=2, seed=chk.seed + 662, fss=[fsn], sels=[("all",)], faults=[dict(file=f, kind="truncated", cut=cut)],
                                   expect="error", origin=f"{fsn}:truncated", special=False))
+    # ---- wide records (more than 8 KiB each): cuts inside the LAST record, behind its first 8 KiB and just before its end; and a file whose
+    #      one request covers more than 16 MiB, cut anywhere (the outcome must arrive promptly: 90 s watchdog)
+    wide_n, wide_p = 6, 5000
+    wrec = 192 + 2 * wide_p
+    for j, cut in enumerate((720 + 5 * wrec + 8192, 720 + 5 * wrec + 8193, 720 + 5 * wrec + 9000, 720 + 6 * wrec - 1, 720 + 5 * wrec + 100, 720 + 3 * wrec + 8500, 720 + 6 * wrec - 2000)):
+        for rpc in (None, 4):
+            cases.append(dict(level="1.5", big=True, images=[("HH", None, wide_n, wide_p)], rpc=rpc, seed=chk.seed + 670 + j, fss=[("vtrace", "local")[j % 2]], sels=[("all",)],
+                              faults=[dict(file="img1", kind="truncated", cut=cut)], expect="error", origin="wide-record-cut", special=False, time_limit=90))
+    huge_n, huge_p = 20, 494904
+    hrec = 192 + 2 * huge_p
+    for j, cut in enumerate((720 + 19 * hrec + 5000, 720 + 10 * hrec, 720 + 20 * hrec - 1, 17 * 2**20 + 3)):
+        cases.append(dict(level="1.5", big=True, images=[("HH", None, huge_n, huge_p)], rpc=None, seed=chk.seed + 680 + j, fss=["vtrace"], sels=[("int", 0)],
+                          faults=[dict(file="img1", kind="truncated", cut=cut)], expect="error", origin="huge-request-cut", special=False, time_limit=90))
     # ---- image truncation at every cut of the TLC family x rpc below / at / above n
     fam = json.load(open(gf))
     for i, f in enumerate(fam):
@@ -119,6 +132,7 @@ def body(chk):
             if k not in seen:
                 seen.add(k)
                 want.append(dict(file="image", kind=knd, n=n, ndata=p * bps, bps=bps))
+    want.append(dict(file="image", kind="processed", n=1, ndata=2, bps=2))
     L.instances(want)
     results = checklib.pmap(imgrun.exercise, cases, chk.scratch, chunksize=8)
     batch = iotrace.TraceBatch(os.path.join(chk.scratch, "c18.ndjson"))
@@ -135,6 +149,9 @@ def body(chk):
             if run["open_s"] > 20:
                 slow += 1
                 chk.violation(f"slow:{key}", f"open took {run['open_s']} s on {run['fs']}", {"case": c})
+            if run["open"] == "error:TookTooLong":
+                chk.violation(f"not-prompt:{key}", f"{run['fs']}: open_alos2 neither raised nor returned within {c.get('time_limit', 600)} s ({what})", {"case": c})
+                continue
             got = "tree" if run["open"] == "ok" else ("OSError" if run.get("oserror") else "error")
             if c["expect"] == "tree":
                 if got != "tree":
